@@ -11,6 +11,7 @@ import (
 	"reflect"
 	"sync"
 	"sync/atomic"
+	"time"
 
 	"github.com/yandex/pandora/core"
 	"github.com/yandex/pandora/core/warmup"
@@ -203,6 +204,10 @@ type probeProvider struct {
 	// (providers that load their ammo inside Run have nothing to dump before that).
 	first   sync.Once
 	onFirst func()
+
+	// mark > 0: the times at which the first and the mark-th ammo were acquired are kept (the span of a storm of discarded shots)
+	mark            int64
+	firstAt, markAt time.Time
 }
 
 func newProbeProvider(inner core.Provider, v *violations) *probeProvider {
@@ -239,6 +244,7 @@ func (p *probeProvider) Acquire() (core.Ammo, bool) {
 		if ptr, isPtr := ammoPtr(a); isPtr {
 			p.mu.Lock()
 			p.acquired++
+			p.stamp()
 			p.held[ptr]++
 			n := p.held[ptr]
 			p.mu.Unlock()
@@ -248,10 +254,34 @@ func (p *probeProvider) Acquire() (core.Ammo, bool) {
 		} else {
 			p.mu.Lock()
 			p.acquired++
+			p.stamp()
 			p.mu.Unlock()
 		}
 	}
 	return a, ok
+}
+
+// stamp (under mu) keeps the times of the first and the mark-th acquisition.
+func (p *probeProvider) stamp() {
+	if p.mark > 0 && (p.acquired == 1 || p.acquired == p.mark) {
+		now := time.Now()
+		if p.acquired == 1 {
+			p.firstAt = now
+		}
+		if p.acquired == p.mark {
+			p.markAt = now
+		}
+	}
+}
+
+// span returns when, counted from t0, the first and the mark-th ammo were acquired (ok = both happened).
+func (p *probeProvider) span(t0 time.Time) (from, to time.Duration, ok bool) {
+	p.mu.Lock()
+	defer p.mu.Unlock()
+	if p.firstAt.IsZero() || p.markAt.IsZero() {
+		return 0, 0, false
+	}
+	return p.firstAt.Sub(t0), p.markAt.Sub(t0), true
 }
 
 func (p *probeProvider) Release(a core.Ammo) {
